@@ -3,6 +3,8 @@ from ..mutate import Mutant, in_func
 from . import mergerules as mr
 from . import pathrules as pr
 
+from .common import Guard  # noqa: E402
+
 PROP = 'C05'
 DECIDED = [
     'R1: over every on_merge_impl / on_premerge_impl in the package, the absolute path threaded through the recursion is used for lookups only on the merge root; lookups inside the nodes being merged use paths relative to them (path-base typing); removed-set and new-path walk share one base.',
@@ -12,9 +14,11 @@ UNDECIDED = ['sibling independence and wrapping invariance as data (a relational
 
 
 def check(repo, run, tier):
-    pr.typed_lookups(repo, run, 'C05.R1')
-    pr.removed_set_bases(repo, run, 'C05.R1')
-    mr.key_loop_paths(repo, run, 'C05.R2')
+    g = Guard()
+    g(pr.typed_lookups, repo, run, 'C05.R1')
+    g(pr.removed_set_bases, repo, run, 'C05.R1')
+    g(mr.key_loop_paths, repo, run, 'C05.R2')
+    g.done()
 
 
 def mutants(repo):
